@@ -228,6 +228,7 @@ def run_all(ctx):
               "strict": "%d:400" % (ctx.seed * 7 + 3), "disable": "%d:100" % (ctx.seed * 7 + 4)}
     mism_total = 0
     mism_notes = []
+    side_panics = []
     for mode in ("rolling", "strict", "post", "disable"):
         psid = "ps_" + mode
         ctx.vh_run(["c04", "run", progs, ctx.mart, "12", psid, mode, scheds[mode]], timeout=3000)
@@ -240,8 +241,10 @@ def run_all(ctx):
         iol = open(eio).read().splitlines()
         for i, v in enumerate(open(eor).read().splitlines()):
             name = mcl[i].split(" ")[0]
-            if v == "ok" or "report_bytes_symlink" in v and not [c for c, _ in _split_verdict(v) if c != "report_bytes_symlink_counted_as_target"]:
+            if v.startswith("ok") or "report_bytes_symlink" in v and not [c for c, _ in _split_verdict(v) if c != "report_bytes_symlink_counted_as_target"]:
                 ok_runs += 1
+            if "panic_in_immortalize" in v:
+                side_panics.append("%s mode=%s" % (name, mode))
             if v.startswith("skip"):
                 continue
             for cls, detail in _split_verdict(v):
@@ -261,7 +264,10 @@ def run_all(ctx):
             mism_notes.append("%s mode=%s: %s (replay %s)" % (name, mode, first_diff(m[2], m[3], ""), os.path.dirname(rp)))
     ctx.oblige("correspondence (real mrp runs, 4 VDR modes): surviving files, per-fork and pipestance kill totals equal the model's prediction (%d runs)" % runs,
                runs > 0 and mism_total == 0, "%d runs differ: %s" % (mism_total, "; ".join(mism_notes[:4])))
-    res["stats"].update({"e2e_runs": runs, "e2e_runs_clean": ok_runs, "programs": nprog, "modes": 4, "schedules": scheds})
+    res["stats"].update({"e2e_runs": runs, "e2e_runs_clean": ok_runs, "programs": nprog, "modes": 4, "schedules": scheds,
+                         # not a VDR matter: mrp panicked in Pipestance.Immortalize (serializing the final state) after
+                         # VDRKill and post-processing were done; the final tree of such a run is still evaluated
+                         "runs_where_mrp_panicked_serializing_final_state_after_vdr": side_panics[:20]})
 
     # ---- (iv) kernel sample
     rnd = random.Random(ctx.seed)
